@@ -10,6 +10,10 @@ the set of datasets in the store is what it was before the call.
 Protocol level (coq/Props/Worker.v, Worker_exit_cleanup_partial over Model/Worker.v): real THREADING / MULTIPROCESSING runs on
 every exit path (normal, raised, abandoned stream, failure inside the finally block) are observed and replayed as traces; judged:
 processes / threads / Flight keys left (harness/worker_proto.py, focus C09).
+Key identity across runs (coq/Model/FlightKeys.v, Props/C09.v C09_swept_run_leaves_nothing ... C09_rerun_checker_sound): ONE prepared
+session run 2-4 times in MULTIPROCESSING (run / stream / abandoned stream / failing run mixes) against the long-lived server; the store is
+listed after every call, the key history (uuid4 keys vs the transform step's uuid that repeats in every run, worker uploads / drops,
+the end-of-run sweep) is replayed against the model (harness/c09_rerun.py, chk_rerun).
 """
 from __future__ import annotations
 
@@ -29,6 +33,7 @@ from harness.orch import GateListener, run_observed, install, flight_server, sto
 from harness.c01 import gen_specs
 from harness.c06 import kf_mp_transform_non_arrow
 from harness import worker_proto
+from harness import c09_rerun
 
 LEVEL = "proof"
 logging.disable(logging.CRITICAL)
@@ -184,7 +189,11 @@ def run(rep: vlib.Reporter, tier: str, seed: int) -> None:
         "runtime behaviour no model can exhibit: observed after every API call (threading.enumerate, "
         "multiprocessing.active_children, FlightServer.list_flight_infos), not proved",
         "the relation between children_if_root and the steps that really look an object up is produced by the planner / "
-        "prepare_execute_step and is not modelled"]
+        "prepare_execute_step and is not modelled",
+        "hand-written Model/FlightKeys.v (server key set, the two client helpers, which keys are uuid4 and which are a transform step's "
+        "uuid, who uploads / drops / sweeps in which process); tied by key histories of re-run sessions observed through wrappers "
+        "around FlightServer.upload_table / drop_tables (requested keys, process, order at the server) and FlightServer.list_flight_infos; "
+        "the Arrow Flight server itself (do_put / drop_table on a dict) is assumed to do what it is asked"]
     big = tier == "thorough"
     found = False
     # ---- protocol level: every exit path of real THREADING / MULTIPROCESSING runs as a trace of Model/Worker.v (join / terminate
@@ -274,12 +283,17 @@ def run(rep: vlib.Reporter, tier: str, seed: int) -> None:
                             else:
                                 rep.finding(f"premature-drop:{key}", f"a step needed a dataset that is not in the store: {r['exc']}", replay)
                                 found = True
+    # ---- key identity across the runs of one session: re-run sessions in MULTIPROCESSING against the long-lived server
+    if c09_rerun.check(rep, tier, seed):
+        found = True
     stop_flight_server()
     rep.add("distribution", dist)
     rep.add("rule", "unit level: PRNG children sets (1-5 of 8 ids), with/without uploads, 1-5 processed feature sets; deferred drops "
                     "over 1-4 tracked objects. End to end: C01 request DAGs x {SYNC, THREADING, MULTIPROCESSING} x {run, stream, "
-                    "abandoned stream} x (no fault | calculation fault at a step), one long-lived Flight server. non-trivial = a "
-                    "sequence in which the object is dropped / every end-to-end run")
+                    "abandoned stream} x (no fault | calculation fault at a step), one long-lived Flight server. Re-run sessions: "
+                    "planner_b chains / fan-ins / shared producers on 1-3 frameworks outside the planner-defect domains, with and without a "
+                    "transform step, prepared once, 2-4 MULTIPROCESSING calls in PRNG mixes of run / stream / abandoned stream / failing "
+                    "run. non-trivial = a sequence in which the object is dropped / every end-to-end run / every (request, operation mix)")
     rep.sample({"tracker_case": tc[0][1], "deferred_case": dc[0][1]})
     if not pr.ok and not found:
         rep.finding("proof-broken", "Props/C09.v no longer checks",
@@ -291,6 +305,10 @@ def replay(path: str) -> int:
     install()
     if r.get("kind") == "worker_proto":
         return worker_proto.replay_main(r, "C09")
+    if r.get("kind") == "rerun":
+        rc = c09_rerun.replay_main(r)
+        stop_flight_server()
+        return rc
     if r.get("kind") == "e2e":
         res = e2e(r["spec"], r["mode"], r["variant"], tuple(r["fail"]) if r.get("fail") else None)
         print(json.dumps(res, indent=1))
